@@ -20,7 +20,7 @@ def chain(tag, profile, quick, thorough, checker, **kw):
 
 def func(tag, cmd, quick, thorough, mismatch, checker, **kw):
     d = dict(tag=tag, cmd=[cmd], quick=quick, thorough=thorough, mismatch_fn=mismatch, checker_fn=checker,
-             shards_quick=2, shards_thorough=8)
+             shards_quick=2, shards_thorough=8, kind='func')
     d.update(kw)
     return d
 
@@ -68,6 +68,37 @@ PROPS = {
         fields=[3, 4, 14, 15, 20],
         rule=CHAIN_RULE + "; request ids include the empty string, prefixes of each other, NUL bytes and ids shared between tenants",
         assumptions=SETTLE_ASSUME),
+    'C05': dict(
+        theorems=['C05_accept_iff', 'C05_repetition_irrelevant', 'C05_only_active_count', 'C05_inactive_no_voice', 'C05_fill', 'C05_fill_rec'],
+        runs=[chain('oracle', 'oracle', 56, 2000, 'check_C05'),
+              chain('settle', 'settlement', 32, 1000, 'check_C05')],
+        fields=[3, 8, 11, 16],
+        rule=CHAIN_RULE + "; 3-5 validators with powers 1-5, thresholds 0.5 .. 1, votes with wrong owners (35%), repeated entries, strangers, jailed validators",
+        assumptions=["x/staking: bonded status follows jailing at the staking end-block, which runs before the oracle's; consensus power = tokens / 10^6 (ConstantReward: 1 per validator with positive power)"]),
+    'C08': dict(
+        theorems=['C08_round_arithmetic', 'C08_tally_once_per_round', 'C08_round_info_current', 'C08_prevote_iff', 'C08_prevote_effect',
+                  'C08_vote_iff', 'C08_vote_effect', 'C08_no_tally_elsewhere', 'C08_nothing_left_behind', 'C08_replayed_vote_rejected'],
+        runs=[func('arith', 'arith', 2000, 40000, 'arith_mismatches', 'arith_check'),
+              chain('oracle', 'oracle', 56, 2000, 'check_C08'),
+              chain('adv', 'adversarial', 24, 800, 'check_C08')],
+        fields=[1, 2, 6, 7, 8, 9, 16, 20, 21],
+        rule="(p, W, maxmiss, h) tuples biased to round boundaries and 2^62..2^64; " + CHAIN_RULE + "; prevotes / votes at every offset of a round, wrong round ids, re-prevotes, votes that do not open the commitment, replays",
+        assumptions=["signature verification and the feeder check of the ante handler are modelled as ValidateFeeder(sender, validator)"]),
+    'C10': dict(
+        theorems=['C10_internal', 'C10_external', 'C10_other_chain_rejected', 'C10_tx_entries', 'C10_end_block_entries',
+                  'C10_never_overwritten', 'C10_env_keeps_records', 'C10_published_sources', 'C10_sources_are_unfilled_old_records'],
+        runs=[chain('settle', 'settlement', 48, 1600, 'check_C10'),
+              chain('oracle', 'oracle', 40, 1400, 'check_C10')],
+        fields=[3, 6, 15, 16, 20],
+        rule=CHAIN_RULE + "; NFTs of this chain are minted and transferred between record and payout; records are created at every offset of a round",
+        assumptions=SETTLE_ASSUME),
+    'C14': dict(
+        theorems=['C14_conserved', 'C14_never_more_than_pool', 'C14_share', 'C14_credit_lines', 'C14_contribution_exact', 'C14_reward_frame'],
+        runs=[chain('oracle', 'oracle', 64, 2400, 'check_C14'),
+              chain('settle', 'settlement', 24, 800, 'check_C14')],
+        fields=[12, 13, 17, 18],
+        rule=CHAIN_RULE + "; settlement fees feed the reward pool (oracle share 0.5), pro-bono rates 0, 0.3, 0.5, 0.333.., 1; every registered crisis invariant is evaluated on the real app after every block",
+        assumptions=["x/distribution AllocateTokensToValidator credits exactly the DecCoins it is given; the SDK modules' own invariants are observed (crisis AssertInvariants after every block), not proved"]),
     'C15': dict(
         theorems=['C15_close_iff', 'C15_every_window_closed', 'C15_first_tally', 'C15_nobody_else',
                   'C15_effect', 'C15_miss_only', 'C15_old_gate_never_closes'],
@@ -97,9 +128,17 @@ LEVELS = {
                 note=PROOF_NOTE, technique=SETTLE_TECH),
     'C12': dict(text="Unbounded theorems: index and record store are in bijection in every reachable state (lookup exact, one pending record per request id, duplicates rejected), ids per tenant strictly increase along any history, and the byte-level store keys are injective for arbitrary request-id strings. Correspondence on ABCI histories incl. by-request-id queries for every id ever used.",
                 note=PROOF_NOTE, technique=SETTLE_TECH),
+    'C05': dict(text="Unbounded theorems on the tally model: an owner is accepted for an NFT iff the DISTINCT bonded, unjailed validators that revealed it hold at least threshold x total power (ceil) and no other revealed owner does; the decision depends only on the set of revealed triples (repetition irrelevant); inactive validators have weight 0; the fill changes exactly the records without recipients created before the cut-off. Proved by refinement of the coded grouping/summing to a sum over validators. Correspondence on ABCI rounds with unequal powers, threshold boundaries, repeated and conflicting entries.",
+                note=PROOF_NOTE, technique="Coq proof: refinement of the coded tally to its specification (sum over distinct validators) + differential correspondence via vm_compute"),
+    'C08': dict(text="Unbounded theorems: uint64/int64 round arithmetic for every accepted vote period; in every block-structured history the stored round info is the round of the executing height; exact acceptance conditions of prevote and vote; the tally gate opens once per round, at its last block; no ballot survives a tally; a replayed vote is rejected. Correspondence on ABCI histories with messages at every window offset.",
+                note=PROOF_NOTE, technique="Coq proof: invariant over block-structured histories of the composed chain model + lia/nia arithmetic + differential correspondence"),
+    'C10': dict(text="Unbounded theorems: recipients of a new record are exactly the on-chain owner (this chain), empty (supported external chain) or the record is rejected; transactions and environment never modify an existing record; an end-block changes a pending record only at a tally, only if it had no recipients and was created before the tallied round, only to the owner accepted for its NFT; set recipients are never overwritten; the published source list is exactly the unfilled records older than the cut-off.",
+                note=PROOF_NOTE, technique="Coq proof: frame lemmas over the composed chain model + differential correspondence"),
+    'C14': dict(text="Unbounded theorems: per denomination pool x 10^18 + credited is invariant under the reward step (what leaves the pool is what is credited); shares are non-negative and sum to at most the pool; each share is floor(pool*floor(10^18 w/W)/10^18), within one unit + pool/10^18 of proportional; credit lines give validator part + pro-bono contribution = integer share. All registered crisis invariants are evaluated on the real app after every block of every history (observed, not proved).",
+                note=PROOF_NOTE, technique="Coq proof (Dec arithmetic over Z, nia) + differential correspondence incl. per-validator outstanding rewards and community pool deltas"),
     'C15': dict(text="Unbounded theorems on the oracle model (all vote periods, windows, heights, validator tables, miss maps): the close routine runs iff a window boundary lies since the previous tally; every window is closed at the first tally at/after its end; nobody is slashed/jailed otherwise; effect of a close; who is charged a miss. Correspondence: exported Go functions on boundary grids + full ABCI histories with misses and jailing.",
                 note=PROOF_NOTE, technique="Coq proof (lia/nia over Z with explicit uint64/int64 wrap) + differential correspondence via vm_compute"),
 }
 
 NOT_APPLICABLE = {p: "work in progress in this session: model exists, check not yet registered" for p in
-                  ['C03','C04','C05','C06','C07','C08','C10','C13','C14','C16','C17','C18','C19','C20']}
+                  ['C03','C04','C06','C07','C13','C16','C17','C18','C19','C20']}
